@@ -29,7 +29,7 @@ APP_ID = 16777251
 STATES = ["server_closed", "client_wicea", "open", "open", "open_traffic", "closing"]
 MUTATIONS = ["truncate", "msg_len", "avp_len", "avp_len", "wrong_width", "bad_enum", "bad_family", "version",
              "non_utf8", "misaddressed", "garbage", "flip", "huge_len", "dup_avp", "zero_avp", "empty", "vflag",
-             "deep_nest"]
+             "deep_nest", "flood", "vendor_flood"]
 BASES = ["cer", "cea", "dwr", "dwa", "dpr", "dpa", "app_req", "app_ans", "app_req_big"]
 
 
@@ -100,6 +100,21 @@ def mutate(spec, n, live=False):
                       len(raw), r.randrange(0, 1 << 24), r.randrange(0, 16)])
         raw[off + 5:off + 8] = max(0, v).to_bytes(3, "big")
         return bytes(raw)
+    if mut == "flood":
+        # count boundary: thousands of minimal well-framed messages (header only, unknown command) back to back
+        k = r.choice([70, 300, 1100, 2500])
+        k = min(k, spec.get("flood_cap", 2500))
+        out = bytearray()
+        for i in range(k):
+            out += b"\x01\x00\x00\x14" + bytes([r.choice([0x80, 0x00])]) + (900000 + i % 7).to_bytes(3, "big") + \
+                (0).to_bytes(4, "big") + (0x7e000000 + i).to_bytes(4, "big") + (0x7f000000 + i).to_bytes(4, "big")
+        return bytes(out)
+    if mut == "vendor_flood":
+        # one message with hundreds of vendor-specific AVPs of vendors nobody registered
+        k = r.choice([50, 300])
+        base = r.getrandbits(20) << 8
+        avps = list(m["avps"]) + [(70000 + i, C.AF_V, 3000000 + base + i, b"junk") for i in range(k)]
+        return C.enc_msg(dict(m, avps=avps))
     if mut == "deep_nest":
         # a Grouped AVP nested in itself many levels deep
         depth = r.choice([20, 80, 200, 400, 1200])
@@ -208,11 +223,13 @@ class C03(Check):
                 base = "cea"
             if state == "closing" and rng.random() < 0.5:
                 base = "dpa"
-            strings.append({"base": base, "mut": mut, "seed": rng.getrandbits(30), "arg": None,
+            strings.append({"base": base, "mut": mut, "seed": rng.getrandbits(30), "arg": None, "flood_cap": 2500,
                             "pre_valid": rng.random() < 0.2, "post_valid": rng.random() < 0.4,
                             "gap": rng.choice([0.0, 0.0, 0.002, 0.05])})
         knobs = draw_knobs(rng)
         knobs["SLEEP_TIMER"] = rng.choice([0.1, 0.3])
+        for st_ in strings:
+            st_["flood_cap"] = int(max(70, min(2500, 20.0 / knobs["STATE_MACHINE_TICKER"])))
         return {"mode": mode, "state": state, "strings": strings, "sched": draw_sched(rng), "knobs": knobs,
                 "answer_mode": rng.choice(["none", "dup", "bad_hbh", "bad_e2e", "late_dup"]),
                 "net": {"max_latency": rng.choice([0.0005, 0.003]), "p_fragment": rng.choice([0.0, 0.3, 0.8]),
@@ -257,11 +274,19 @@ class C03(Check):
             peerb["answer_cer"] = "none"
         if state == "closing":
             peerb["answer_dpr"] = False
-        w = WorldA(dict(scn, peer=peerb, auto_peer_cer=(state != "server_closed"), pure_line_cap=2_000_000), tape_in)
+        nfl = sum(len(mutate(s_, i_ + 1)) // 20 for i_, s_ in enumerate(scn["strings"]) if s_["mut"] == "flood")
+        budget = {}
+        if nfl:
+            # the state machine consumes one message per tick: give the run the time and the steps for it
+            budget = {"horizon": scn.get("horizon", 120.0) + 3.0 * nfl * scn["knobs"].get("STATE_MACHINE_TICKER", 0.01) + 20.0,
+                      "max_steps": 6_000_000 + 2500 * nfl}
+        w = WorldA(dict(scn, peer=peerb, auto_peer_cer=(state != "server_closed"), pure_line_cap=2_000_000, **budget), tape_in)
         sim = w.sim
         knobs = w.world.knobs
         tick = knobs["STATE_MACHINE_TICKER"]
-        D = knobs["SLEEP_TIMER"] + 2 * knobs["TRACKING_SOCKET_EVENTS_TIMEOUT"] + 2.0 + 40 * tick + 400000 * sim.quantum
+        nflood = sum(len(mutate(s_, i_ + 1)) // 20 for i_, s_ in enumerate(scn["strings"]) if s_["mut"] == "flood")
+        D = knobs["SLEEP_TIMER"] + 2 * knobs["TRACKING_SOCKET_EVENTS_TIMEOUT"] + 2.0 + 40 * tick + 400000 * sim.quantum + \
+            nflood * (600 * sim.quantum + 1.2 * tick)
         violations = []
         st = {"reached": False, "decoder": {"returned": 0, "library_error": 0, "max_steps_per_byte": 0.0}}
         blobs = [mutate(s, i + 1) for i, s in enumerate(scn["strings"])]
@@ -305,13 +330,49 @@ class C03(Check):
             if len(blob):
                 st["decoder"]["max_steps_per_byte"] = max(st["decoder"]["max_steps_per_byte"], used / len(blob))
 
+        def growth_subcheck(i, spec):
+            """'grows without bound': decoding fresh inputs of the same shape again and again must not
+            keep accumulating memory (measured with tracemalloc after a warm-up round)."""
+            import gc
+            import tracemalloc
+            from bromelia.base import DiameterMessage
+            sim.pure_line_cap = 2_000_000
+
+            def round_(k):
+                sp = dict(spec, seed=spec["seed"] + 7919 * (k + 1))
+                try:
+                    with sim.untraced():
+                        DiameterMessage.load(mutate(sp, i + 1))
+                except BaseException as e:      # noqa
+                    if type(e).__name__ in ("SimStop", "SimHang"):
+                        raise
+            round_(0)
+            round_(1)
+            gc.collect()
+            tracemalloc.start()
+            base0 = tracemalloc.get_traced_memory()[0]
+            for k in range(2, 8):
+                round_(k)
+            gc.collect()
+            grown = tracemalloc.get_traced_memory()[0] - base0
+            tracemalloc.stop()
+            st["decoder"]["retained_bytes_after_6_rounds"] = grown
+            if grown > 40000:
+                viol("decoding never grows without bound", "decoder/growth/%s" % spec["mut"],
+                     {"retained_bytes_after_6_fresh_inputs": grown, "mutation": spec})
+
         def main(sim):
             from bromelia.base import DiameterRequest
             from bromelia.avps import SessionIdAVP, OriginHostAVP, OriginRealmAVP, DestinationRealmAVP
             # (e) decoder sub-check, in its own simulated thread (so that a hang is cut by the meter)
             def dec():
                 for i, b in enumerate(blobs):
-                    decoder_subcheck(i, b)
+                    if len(b) <= 20000:
+                        decoder_subcheck(i, b)
+                for i, sp in enumerate(scn["strings"]):
+                    if sp["mut"] == "vendor_flood":
+                        growth_subcheck(i, sp)
+                        break
             t = sim.spawn(dec, role="X:decoder")
             while t.state != "done" and not sim.halted:
                 t.join(timeout=5.0)
@@ -389,7 +450,7 @@ class C03(Check):
             probes.append(pc)
             sim.wait_until(lambda: pc["t1"] is not None, D, poll=D / 40.0)
             for p in probes:
-                if p["t1"] is None:
+                if p["t1"] is None and not sim.halted:
                     th = p["thread"]
                     viol("local API calls still return", "api-call-blocked/%s/%s" % (p["role"], ctxs),
                          {"call": p["role"], "blocked_on": repr(th.wait_on), "state": w.state(),
